@@ -42,8 +42,17 @@ def task_bdd(t):
     names = names_for(n, env.SEED)
     U = Universe(names)
     order = sweep.orders(names)[oi]
+    which, _, hist = which.partition(':')
     auto = which == 'autoref'
-    if auto:
+    if hist:
+        # a manager with a history: node numbers re-used / nodes rewritten in place
+        try:
+            bdd, h = sweep.make_history(hist, order, U, None, auto)
+        except Violation as v:
+            rec('context:' + v.what, v.what, dict(task=t))
+            return rep
+        refs = h
+    elif auto:
         bdd = S.new_autoref(order)
         refs, b = sweep.build_all(bdd, U, hold=False)
         h = {f: bdd._add_int(r) for f, r in refs.items()}
@@ -242,7 +251,17 @@ def plan(tier):
         for oi in (0, 23):
             for si in range(16):
                 ts.append(('t', 4, oi, 'bdd', si, 16, None))
+        for k, oi in enumerate(range(6)):
+            ts.append(('t', 3, oi, 'bdd:' + ('K1', 'K2', 'rev')[k % 3], 0, 1, None))
+            ts.append(('t', 3, oi, 'autoref:' + ('rev', 'K1', 'K2')[k % 3], 0, 1, None))
     else:
+        for oi in range(6):
+            for hist in ('K1', 'K2', 'rev'):
+                ts.append(('t', 3, oi, 'bdd:' + hist, 0, 1, None))
+                ts.append(('t', 3, oi, 'autoref:' + hist, 0, 1, None))
+        for oi in (5, 14):
+            for si in range(8):
+                ts.append(('t', 4, oi, 'bdd:rev', si, 8, None))
         for oi in range(6):
             ts.append(('t', 3, oi, 'bdd', 0, 1, None))
             ts.append(('t', 3, oi, 'autoref', 0, 1, None))
